@@ -28,7 +28,7 @@ def main():
         for i, st in enumerate(hist['steps'], 1):
             out = os.path.join(tmp, '%s_%d' % (st['dir'], i))
             try:
-                files, _ = backendruns.run_row(backendruns.ROWS[st['row'] - 1], backendruns.spec_set(st['spec'] - 1), out,
+                files, _ = backendruns.run_row(backendruns.ROWS[st['row'] - 1], backendruns.spec_set(st['spec'] - 1, backendruns.ROWS[st['row'] - 1][0]), out,
                                                   whitelist=backendruns.whitelist_for(st['spec'] - 1))
                 dg = digest(files)
             except Exception as e:
